@@ -125,6 +125,11 @@ func Parse(b []byte) (*Image, error) {
 			return nil, ill("sections overlap")
 		}
 	}
+	if im.CertSize == 0 && im.CertOff != 0 {
+		// a left-over address with size 0: there is no table (the size says so); a parser may refuse it
+		im.Tolerated = "certificate table address without a size"
+		im.CertOff = 0
+	}
 	if im.CertSize != 0 || im.CertOff != 0 {
 		if im.CertSize == 0 || im.CertOff == 0 {
 			return nil, ill("half-set certificate table entry")
@@ -282,7 +287,11 @@ func Strip(img []byte) ([]byte, error) {
 		return nil, err
 	}
 	if im.CertSize == 0 {
-		return append([]byte{}, img...), nil
+		out := append([]byte{}, img...)
+		for i := 0; i < 8; i++ {
+			out[im.CertDirOff+i] = 0 // a left-over address without a size is no part of the original either
+		}
+		return out, nil
 	}
 	out := append([]byte{}, img[:im.CertOff]...)
 	for i := 0; i < 8; i++ {
